@@ -49,7 +49,8 @@ def plan(tier, seed):
         rule=RULE,
         require=['swap_cases', 'reorder_to_cases', 'pairs_cases',
                  'sift_cases', 'swap_calls_observed',
-                 'swap_index_checks', 'held_refs_rechecked'],
+                 'swap_index_checks', 'held_refs_rechecked',
+                 'explicit_reorderings_with_dynamic_due'],
         assumptions=['held references are incref-ed (dd.bdd) or live '
                      'Function objects (dd.autoref)',
                      'pairs given to reorder_to_pairs are disjoint'],
@@ -193,6 +194,26 @@ def sampled(ctx, spec):
             w.build(random_table(rng, w.sp, kind=rng.random()))
         ctx.counters['reorderings_started_with_garbage'] += 1
 
+    import contextlib
+
+    @contextlib.contextmanager
+    def maybe_due(site):
+        """In a third of the cases the explicit reordering is asked of
+        a manager on which dynamic reordering is enabled and due at the
+        next node creation: it must run to completion all the same, and
+        leave dynamic reordering enabled."""
+        due = rng.random() < 0.33
+        if due:
+            w.raw._last_len = 1
+            ctx.counters['explicit_reorderings_with_dynamic_due'] += 1
+        try:
+            yield
+        finally:
+            if due:
+                still = w.raw.configure(reordering=False)['reordering']
+        if due and not still:
+            raise Violation(site, 'dynamic-reordering-switched-off', None)
+
     def one_round(rnd):
         # new held set: 1-6 functions, plus unheld garbage
         while len(w.pool) > rng.randint(0, 2):
@@ -212,7 +233,8 @@ def sampled(ctx, spec):
                     (w.raw.var_at_level(i), w.raw.var_at_level(i + 1)),
                     (w.raw.var_at_level(i + 1), w.raw.var_at_level(i)))[how]
             before = {l: v for v, l in w.raw.vars.items()}
-            w.raw.swap(a, b)
+            with maybe_due('swap'):
+                w.raw.swap(a, b)
             if (w.raw._level_to_var[i], w.raw._level_to_var[i + 1]) != \
                     (before[i + 1], before[i]):
                 raise Violation('swap', 'levels-not-exchanged',
@@ -226,10 +248,11 @@ def sampled(ctx, spec):
             order = {v: i for i, v in enumerate(p)}
             start = tuple(sorted(w.raw.vars, key=w.raw.vars.get))
             garbage()
-            if kind == 'bdd':
-                w._b.reorder(w.raw, order)
-            else:
-                w.bdd.reorder(order)
+            with maybe_due('reorder(order)'):
+                if kind == 'bdd':
+                    w._b.reorder(w.raw, order)
+                else:
+                    w.bdd.reorder(order)
             if dict(w.raw.vars) != order:
                 raise Violation('reorder(order)',
                                 'requested-order-not-reached',
@@ -246,7 +269,8 @@ def sampled(ctx, spec):
                 pairs = {vs[2 * j]: vs[2 * j + 1] for j in range(k)}
                 start = tuple(sorted(w.raw.vars, key=w.raw.vars.get))
                 garbage()
-                w._b.reorder_to_pairs(w.raw, pairs)
+                with maybe_due('reorder_to_pairs'):
+                    w._b.reorder_to_pairs(w.raw, pairs)
                 for x, y in pairs.items():
                     if abs(w.raw.vars[x] - w.raw.vars[y]) != 1:
                         raise Violation('reorder_to_pairs',
